@@ -1,10 +1,11 @@
 import MimeModel.Model.Charset
 import MimeModel.Spec.All
+import MimeModel.Lemmas.Utf8
 /-
   C11 — sniffed charset is truthful for undeclared text.
 -/
 namespace Mime.C11
-open Mime Mime.Charset
+open Mime Mime.Charset Mime.Spec Mime.Utf8
 
 /-- **BOM wins**: when the content starts with a byte-order mark of the (regenerated) table,
     `FromPlain` reports exactly the charset `FromBOM` gives -/
@@ -46,5 +47,102 @@ theorem latin_split (x : Bytes) :
         rw [List.any_eq_true]
         exact ⟨b, hb, by simpa using hc⟩
     · exact absurd h (by decide)
+
+/-- **`utf8.Valid` is RFC 3629**: the model of Go's table-driven validator accepts exactly the
+    sequences of well-formed characters of the reference (decode the scalar value; shortest
+    form, no surrogates, at most U+10FFFF) -/
+theorem utf8Valid_is_rfc3629 (b : Bytes) : utf8Valid b = U.validUtf8 b := utf8Valid_eq_spec b
+
+theorem fromPlain_noBOM (x : Bytes) (hbom : fromBOM x = csNone) :
+    fromPlain x = if x.isEmpty then csNone
+      else if (stripPartial x).any (fun b => b ≥ 0x80) && utf8Valid (stripPartial x) then csUtf8
+      else if ascii x then csUtf8 else latin x := by
+  unfold fromPlain
+  simp [hbom]
+
+theorem latin_ne_utf8 (x : Bytes) : latin x ≠ csUtf8 := by
+  unfold latin
+  repeat' split
+  all_goals decide
+
+/-- **utf-8 is reported only for UTF-8**: without a BOM, `charset=utf-8` implies the examined
+    bytes are well-formed UTF-8 followed, at most, by the cut-off start of one more character -/
+theorem utf8_sound (x : Bytes) (hbom : fromBOM x = csNone) (h : fromPlain x = csUtf8) :
+    ∃ p s, x = p ++ s ∧ U.validUtf8 p = true ∧ (s = [] ∨ U.truncSeq s = true) := by
+  rw [fromPlain_noBOM x hbom] at h
+  split at h
+  · cases h
+  split at h
+  · rename_i hc
+    simp only [Bool.and_eq_true] at hc
+    have hv : U.validUtf8 (stripPartial x) = true := by rw [← utf8Valid_eq_spec]; exact hc.2
+    rcases strip_spec x with e | ⟨s, e, hs⟩
+    · exact ⟨x, [], by simp, by rw [← e]; exact hv, Or.inl rfl⟩
+    · exact ⟨stripPartial x, s, e, hv, Or.inr hs⟩
+  split at h
+  · rename_i ha
+    refine ⟨x, [], by simp, ?_, Or.inl rfl⟩
+    rw [← utf8Valid_eq_spec]
+    apply ascii_valid
+    intro b hb
+    simp only [ascii, List.all_eq_true, Bool.and_eq_true, Bool.not_eq_true', decide_eq_false_iff_not] at ha
+    have := (ha b hb).1
+    omega
+  · exact absurd h (latin_ne_utf8 x)
+
+/-- **utf-8 is always reported for UTF-8 text**: well-formed UTF-8 (possibly with the start of
+    one more character cut off at the very end) that is all ASCII text, or contains at least one
+    complete non-ASCII character, is reported as utf-8 -/
+theorem utf8_complete (x p s : Bytes) (hne : x ≠ []) (hbom : fromBOM x = csNone) (hx : x = p ++ s)
+    (hp : U.validUtf8 p = true) (hs : s = [] ∨ U.truncSeq s = true)
+    (h : ascii x = true ∨ U.hasNonAscii p = true) : fromPlain x = csUtf8 := by
+  rw [fromPlain_noBOM x hbom]
+  have hne' : x.isEmpty = false := by
+    cases x with
+    | nil => exact absurd rfl hne
+    | cons _ _ => rfl
+  simp only [hne', Bool.false_eq_true, ↓reduceIte]
+  rcases h with ha | hn
+  · simp only [ha, ↓reduceIte]
+    split <;> rfl
+  · have hpv : utf8Valid p = true := by rw [utf8Valid_eq_spec]; exact hp
+    have hstrip : stripPartial x = p := by
+      rcases hs with rfl | hs
+      · simp only [List.append_nil] at hx; rw [hx]; exact valid_strip p hpv
+      · rw [hx]; exact strip_trunc p s hs
+    rw [hstrip]
+    have : (p.any (fun b => decide (b ≥ 0x80)) && utf8Valid p) = true := by
+      simp only [Bool.and_eq_true]; exact ⟨hn, hpv⟩
+    simp only [this, ↓reduceIte]
+
+/-- the single-byte verdicts of `FromPlain` come from `latin` -/
+theorem plain_latin_split (x : Bytes) (hbom : fromBOM x = csNone) :
+    (fromPlain x = csWin1252 → ∃ b ∈ x, 0x80 ≤ b ∧ b ≤ 0x9F) ∧
+    (fromPlain x = csLatin1 → ∀ b ∈ x, ¬ (0x80 ≤ b ∧ b ≤ 0x9F)) := by
+  rw [fromPlain_noBOM x hbom]
+  constructor
+  · intro h
+    split at h
+    · exact absurd h (by decide)
+    split at h
+    · exact absurd h (by decide)
+    split at h
+    · exact absurd h (by decide)
+    · exact (latin_split x).1 h
+  · intro h
+    split at h
+    · exact absurd h (by decide)
+    split at h
+    · exact absurd h (by decide)
+    split at h
+    · exact absurd h (by decide)
+    · exact (latin_split x).2 h
+
+/- non-vacuity -/
+example : fromPlain [0x63, 0x61, 0x66, 0xC3, 0xA9] = csUtf8 := by decide           -- "café"
+example : fromPlain [0x63, 0x61, 0x66, 0xC3] = csLatin1 := by decide               -- "caf" + cut "é": neither clause of completeness applies
+example : fromPlain [0xC3, 0xA9, 0xE2, 0x82] = csUtf8 := by decide                 -- "é" + cut "€"
+example : U.truncSeq [0xE2, 0x82] = true := by decide
+example : fromPlain [0x63, 0x61, 0x66, 0xE9] = csLatin1 := by decide               -- latin-1 "café"
 
 end Mime.C11
